@@ -367,6 +367,7 @@ class VSock:
             self.at_eof = True
             return b""
         if e[1] == "R":
+            self.was_reset = True
             raise ConnectionResetError(104, "Connection reset by peer")
         raise AssertionError(e)
 
@@ -384,6 +385,8 @@ class VSock:
         self.closed += 1
 
     def shutdown(self, how=None):
+        if getattr(self, "was_reset", False):
+            raise OSError(107, "Transport endpoint is not connected")      # what a TCP socket says after the peer's RST
         self.log.append((self.w.now, "shutdown"))
         # wakes up a thread blocked in recv on this socket
         self.inbox.append((self.w.now, "EOF"))
